@@ -1742,6 +1742,8 @@ def neighbours(case: Case):
 
 
 PROP = Prop(
+    unclaimed_diffs_binding=True,   # the model transcribes the code outside the claim domain too (0 differences on every run):
+                                    # `claimed=False` silences the oracle only
     pid="C07",
     lean_targets=["OFCore.Props.C07", "OFCore.Drv.PView"],
     driver="ofdrv_pview",
